@@ -125,10 +125,11 @@ def finish(res: Result, tier: str, seed: int, t0: float, explanation: str, trust
             violations.append(f)
     wall = time.time() - t0
 
-    if res.incomplete:
-        code = 2
-    elif violations:
+    # a definite violation is reported even when another rule could not be completed
+    if violations:
         code = 1
+    elif res.incomplete:
+        code = 2
     else:
         code = 0
 
